@@ -28,6 +28,11 @@ def to_smt2(constraints, get_values=None):
 def _limits():
     resource.setrlimit(resource.RLIMIT_AS, (MEM_LIMIT, MEM_LIMIT))
     os.setsid()
+    try:
+        import ctypes
+        ctypes.CDLL('libc.so.6').prctl(1, signal.SIGKILL)      # PR_SET_PDEATHSIG: no orphaned solvers when a check is killed
+    except Exception:
+        pass
 
 class Result:
     def __init__(self, verdict, solver, secs, detail='', model=None, all_answers=None):
